@@ -35,8 +35,18 @@ Params == {"persist", "persist-id", "cancel-persist-id", "log", "log-after-faile
 Classes == {"plain", "lt", "gt", "amp", "quot", "apos", "delim", "nonascii", "space"}
 C10Cases == {[param |-> p, classes |-> c] : p \in Params, c \in SeqsUpTo(Classes, K1)}
 
+(* C14: mutation scripts over the message templates: operator, one or two positions (eighths of the message) *)
+Templates == {"hello", "reply-ok", "reply-errors", "reply-data", "reply-bare", "load-ok", "load-errors"}
+C14Cases ==
+  {[tmpl |-> t, op |-> o, p |-> p, q |-> 0, seed |-> 0] : t \in Templates, o \in {"trunc", "flip20", "flip80", "flip01", "badutf8"}, p \in 0..8}
+  \cup {[tmpl |-> t, op |-> "splice", p |-> p, q |-> q, seed |-> 0] : t \in Templates, p \in 0..7, q \in 1..8}
+  \cup {[tmpl |-> t, op |-> o, p |-> 0, q |-> 0, seed |-> 0] : t \in Templates, o \in {"none", "dupelem", "hugeint", "wrongns", "deep", "big", "empty"}}
+  \cup {[tmpl |-> t, op |-> "leaftext", p |-> p, q |-> q, seed |-> 0] : t \in Templates, p \in 0..8, q \in 0..7}
+  \cup {[tmpl |-> t, op |-> "random", p |-> 0, q |-> 0, seed |-> sd] : t \in Templates, sd \in 1..K1}
+
 Out ==
-  CASE What = "c10" -> ToJson([cases |-> C10Cases])
+  CASE What = "c14" -> ToJson([cases |-> C14Cases])
+    [] What = "c10" -> ToJson([cases |-> C10Cases])
     [] What = "c13" -> ToJson([cases |-> C13Cases])
     [] What = "c08" -> ToJson([cases |-> C08Cases])
     [] What = "c09" -> ToJson([contents |-> C09Contents])
